@@ -8,6 +8,10 @@
     unmarshalc <hex>   -> "ok <consumed> <cdesc>" | "err"
     reasm <hex of a 32-bit instruction word, big endian>  -> "ok <hex of encode (decode w)> <opcode number> <args…>" | "noop" (not an
                          instruction of the table) | "err" (the assembler model rejects what the disassembler model produced)
+    asmdef <vararg> <arity> <min> <max> <slotcount> <nconsts> <ndefs> <nenvs> <hex of BE words|-> <extra,…|-> (<birth> <death> <slot>)*
+                       (extra = captured-slot operands of ldu / setu in sub-funcdefs that read_instruction counts in this funcdef)
+                       -> "<janet_verify code of that funcdef> <slot count janet_asm1 computes from its disassembly> <ok <slotcount>|err>"
+                          (Asm/Def.lean: verify, asmSlotcount, asmOf)
     chanhook <threaded> <closed> <limit> <val>*   -> hex of what janet_chanat_marshal appends (hook protocol, Abstract.lean)
     chanread <hex>     -> "ok <consumed> <threaded> <closed> <limit> <val>*" | "err"   (janet_chanat_unmarshal on those bytes)
   <cdesc> = <val> { "|" <cobj> } "#" [ <def> { "|" <def> } ] "#" [ <env> { "|" <env> } ]
@@ -31,6 +35,7 @@ import JanetModel.Marsh.Code
 import JanetModel.Marsh.Abstract
 import JanetModel.Asm.Operand
 import JanetModel.Asm.Instr
+import JanetModel.Asm.Def
 open Driver JanetModel.Marsh
 
 def dropFirst (s : String) (k : Nat) : String := String.ofList (s.toList.drop k)
@@ -433,4 +438,37 @@ def step (_ : Unit) (toks : List String) : Unit × String :=
     | none => ((), "bad-op")
   | _ => ((), "bad-op")
 
-def main : IO Unit := runLoop () step
+def wordsOfBytesBE : List Nat → List Nat
+  | b3 :: b2 :: b1 :: b0 :: rest => (b3 * 16777216 + b2 * 65536 + b1 * 256 + b0) :: wordsOfBytesBE rest
+  | _ => []
+
+def symsOf : List Nat → List JanetModel.Asm.SymEntry
+  | b :: d :: s :: rest => ⟨b, d, s⟩ :: symsOf rest
+  | _ => []
+
+def stepAsmDef : List String → Option String
+  | va :: ar :: mn :: mx :: sc :: nc :: nd :: ne :: hx :: ex :: syms => do
+    let va ← va.toNat?
+    let ar ← ar.toInt?
+    let mn ← mn.toInt?
+    let mx ← mx.toInt?
+    let sc ← sc.toInt?
+    let nc ← nc.toNat?
+    let nd ← nd.toNat?
+    let ne ← ne.toNat?
+    let bs ← if hx = "-" then some [] else bytesOfHex hx
+    let sy ← syms.mapM (·.toNat?)
+    let extra ← if ex = "-" then some [] else (ex.splitOn ",").mapM (·.toInt?)
+    let d : JanetModel.Asm.FDef := ⟨va != 0, ar, mn, mx, sc, wordsOfBytesBE bs, nc, nd, ne, symsOf sy⟩
+    let r := match JanetModel.Asm.asmOfX extra d with
+      | some d' => s!"ok {d'.slotcount}"
+      | none => "err"
+    some s!"{JanetModel.Asm.verify d} {JanetModel.Asm.asmSlotcountX extra d} {r}"
+  | _ => none
+
+def step2 (u : Unit) (ws : List String) : Unit × String :=
+  match ws with
+  | "asmdef" :: rest => ((), (stepAsmDef rest).getD "bad-op")
+  | _ => step u ws
+
+def main : IO Unit := runLoop () step2
